@@ -1,4 +1,4 @@
-CONSTANTS Labels = {0, 1, 2, 3, 4}  MaxLen = 10
+CONSTANTS Labels = {0, 1, 2, 3, 4}  MaxLen = 9
 SPECIFICATION Spec
 INVARIANTS NoPanic NeverLonger OnlyLabelsOfInput InventsOnlyBeyondTwice Emit
 CHECK_DEADLOCK FALSE
